@@ -1,0 +1,57 @@
+//go:build verif
+
+package flap
+
+// Verification hooks: exported access to unexported internals for the correspondence
+// harness in /verif.  Compiled only with -tags verif; adds code, changes none.
+
+// ---- Flight ----
+
+// VerifFlight is a plain copy of every Flight field, including the unexported marker.
+type VerifFlight struct {
+	Et       int8
+	Start    EpochTime
+	End      EpochTime
+	From     ICAOCode
+	To       ICAOCode
+	Distance Kilometres
+}
+
+func VerifToFlight(v VerifFlight) Flight {
+	return Flight{et: flightType(v.Et), Start: v.Start, End: v.End, FromAirport: v.From, ToAirport: v.To, Distance: v.Distance}
+}
+func VerifFromFlight(f Flight) VerifFlight {
+	return VerifFlight{Et: int8(f.et), Start: f.Start, End: f.End, From: f.FromAirport, To: f.ToAirport, Distance: f.Distance}
+}
+
+// ---- TripHistory ----
+
+func (self *TripHistory) VerifEntries() []VerifFlight {
+	out := make([]VerifFlight, MaxFlights)
+	for i := range self.entries {
+		out[i] = VerifFromFlight(self.entries[i])
+	}
+	return out
+}
+func (self *TripHistory) VerifSetEntry(i int, v VerifFlight) { self.entries[i] = VerifToFlight(v) }
+func (self *TripHistory) VerifOldestChange() int             { return int(self.oldestChange) }
+func (self *TripHistory) VerifSetOldestChange(i int)         { self.oldestChange = tripHistoryIndex(i) }
+func (self *TripHistory) VerifStartOfTrip(j int) (int, error) {
+	i, err := self.startOfTrip(tripHistoryIndex(j))
+	return int(i), err
+}
+func (self *TripHistory) VerifTripStartEndLength() (EpochTime, EpochTime, Kilometres) {
+	return self.tripStartEndLength()
+}
+
+// VerifTHParams builds the FlapParams fields TripHistory.Update reads.
+func VerifTHParams(tripLength Days, flightsInTrip uint64, flightInterval Days, algo byte) FlapParams {
+	var p FlapParams
+	p.TripLength = tripLength
+	p.FlightsInTrip = flightsInTrip
+	p.FlightInterval = flightInterval
+	p.Promises.Algo = PromisesAlgo(algo)
+	return p
+}
+
+func VerifDaysBetween(a, b EpochTime) Days { return daysBetween(a, b) }
